@@ -692,6 +692,10 @@ def assemble(out_path, only=None):
     for name in ('classes.rs', 'bytes.rs', 'shims.rs', 'startline.rs', 'chunk.rs', 'headers.rs', 'lemmas.rs'):
         if os.path.exists(os.path.join(VERIF, 'spec', name)):
             out.extend(read_spec(name))
+    if os.environ.get('VERIF_SPEC_EXTRA'):
+        # development aid: an extra lemma file under work (never set by the registered checks)
+        for l in open(os.environ['VERIF_SPEC_EXTRA']).read().split('\n'):
+            out.add(l, None)
     # functions under contract from lib.rs, grouped by impl scope
     scopes = {}
     for sp in specs:
